@@ -26,6 +26,8 @@ import random
 import re
 import zipfile
 
+from vlib.xlsxx import DATA, c, local, ordered_sers, plot_elements, read_chart, serial
+
 ID = "C07"
 LEVEL = "exploration"
 EXHAUSTIVE = False
@@ -35,9 +37,9 @@ RULE = (
     "mismatch; xy/bubble: s0 s1p1 few holes unequal s50 p300 p0 nfmeta) x <= 2 replaces + one round over every corpus chart; "
     "thorough: 500 cases per type (named and randomly parameterised shapes) + 200 rounds per corpus deck. Zero series (s0): "
     "python-pptx documents nothing; area/bar/line/radar/doughnut/xy/bubble writers emit a plot without c:ser (schema-valid, the "
-    "categories are then carried nowhere and the read API must report no series and no categories); pie raises IndexError and "
-    "is documented to have exactly one series (the writer uses the first only), so pie types get exactly one on creation and replacement. No category at all is rejected by python-pptx with ValueError (rejected call, "
-    "counted). non-trivial: >= 2 series or depth > 1 or a None hole or >= 1 replace. distinct: (type, entry, shape signature = "
+    "categories are then carried nowhere and the read API must report no series and no categories); pie raises IndexError and is "
+    "documented to have exactly one series (the writer uses the first only), so pie types get exactly one on creation and "
+    "replacement. No category at all is rejected by python-pptx with ValueError (rejected call, counted). non-trivial: >= 2 series or depth > 1 or a None hole or >= 1 replace. distinct: (type, entry, shape signature = "
     "#series, length pattern, category kind, depth, has-None, string classes, replacement signatures)."
 )
 ASSUMPTIONS = [
@@ -50,8 +52,6 @@ ASSUMPTIONS = [
 ]
 WATCHDOG_S = {"quick": 900, "thorough": 3000}
 
-C = "http://schemas.openxmlformats.org/drawingml/2006/chart"
-DATA = ("tx", "cat", "val", "xVal", "yVal", "bubbleSize")
 PH_DECK = "features/steps/test_files/ph-unpopulated-placeholders.pptx"
 CAT_SHAPES = ["s0", "s1p1", "few", "holes", "numcats", "datecats", "multi2", "multi3", "multi4", "s50", "p300", "p0", "emptylabel", "nfmeta", "mismatch"]
 XY_SHAPES = ["s0", "s1p1", "few", "holes", "unequal", "s50", "p300", "p0", "nfmeta"]
@@ -70,14 +70,6 @@ STRINGS = {
     "url-raises": ["file://x"],
 }
 MIX = {"plain": 40, "markup": 25, "space": 12, "lookalike": 10, "long": 2, "formula": 4, "url-kept": 4, "url-rewritten": 3}
-
-
-def c(local):
-    return "{%s}%s" % (C, local)
-
-
-def local(el):
-    return el.tag.split("}")[-1] if isinstance(el.tag, str) else ""
 
 
 def rng(*parts):
@@ -223,15 +215,6 @@ def build_data(desc):
     return cd
 
 
-def serial(d, date1904=False):
-    """Excel day number of a date: 1900-01-01 = 1 and the non-existent 1900-02-29 = 60; or days since 1904-01-01"""
-    o = datetime.date(d.year, d.month, d.day).toordinal()
-    if date1904:
-        return float(o - datetime.date(1904, 1, 1).toordinal())
-    n = o - datetime.date(1899, 12, 31).toordinal()
-    return float(n + 1 if n >= 60 else n)
-
-
 def fl(v):
     return None if v is None else float(str(v))
 
@@ -279,79 +262,6 @@ def signature(desc):
     classes = sorted({k for k, v in STRINGS.items() for t in labs + [x["name"] for x in s] if t in v})
     depth = expected(desc)["cats"]["depth"] if cats else 0
     return {"kind": desc["kind"], "nser": len(s), "lens": sorted(set(lens))[:4], "cats": cats.get("kind"), "depth": depth, "none": hole, "strings": classes, "nf": desc["nf"] in NF_META}
-
-
-# ------------------------------------------------------------------ independent chart reader
-def read_cache(cache):
-    out = {"count": None, "pts": {}, "levels": None, "fmt": None, "dup": False}
-    if cache is None:
-        return out
-    pc = cache.find(c("ptCount"))
-    out["count"] = int(pc.get("val")) if pc is not None and pc.get("val") is not None else None
-    fc = cache.find(c("formatCode"))
-    out["fmt"] = None if fc is None else (fc.text or "")
-
-    def pts(parent):
-        d = {}
-        for pt in parent.findall(c("pt")):
-            i, v = int(pt.get("idx")), pt.find(c("v"))
-            out["dup"] = out["dup"] or i in d
-            d[i] = "" if v is None or v.text is None else v.text
-        return d
-
-    lvls = cache.findall(c("lvl"))
-    if lvls:
-        out["levels"] = [pts(l) for l in lvls]
-        out["pts"] = out["levels"][0]
-    else:
-        out["pts"] = pts(cache)
-    return out
-
-
-def read_source(el):
-    """c:tx / c:cat / c:val / c:xVal / c:yVal / c:bubbleSize -> {ref, f, count, pts {idx: text}, levels, fmt} or None"""
-    if el is None:
-        return None
-    for ch in el:
-        ln = local(ch)
-        if ln in ("strRef", "numRef", "multiLvlStrRef"):
-            f = ch.find(c("f"))
-            cache = next((x for x in ch if local(x).endswith("Cache")), None)
-            return dict(read_cache(cache), ref=ln, f=None if f is None else (f.text or ""))
-        if ln in ("strLit", "numLit"):
-            return dict(read_cache(ch), ref=ln, f=None)
-        if ln in ("v", "rich"):
-            return {"ref": ln, "f": None, "count": 1, "pts": {0: "".join(ch.itertext())}, "levels": None, "fmt": None, "dup": False}
-    return {"ref": None, "f": None, "count": None, "pts": {}, "levels": None, "fmt": None, "dup": False}
-
-
-def plot_elements(root):
-    pa = root.find("%s/%s" % (c("chart"), c("plotArea")))
-    return [] if pa is None else [e for e in pa if local(e).endswith("Chart")]
-
-
-def ordered_sers(plot):
-    def order(s):
-        o = s.find(c("order"))
-        return int(o.get("val")) if o is not None and (o.get("val") or "").lstrip("-").isdigit() else 1 << 40
-
-    return sorted(plot.findall(c("ser")), key=order)
-
-
-def read_chart(root):
-    d = root.find(c("date1904"))
-    ext = root.find(c("externalData"))
-    out = {"date1904": d is not None and d.get("val", "1").lower() in ("1", "true"), "plots": [], "ext_rid": None if ext is None else ext.get("{http://schemas.openxmlformats.org/officeDocument/2006/relationships}id")}
-    for pl in plot_elements(root):
-        sers = []
-        for s in ordered_sers(pl):
-            one = {k: read_source(s.find(c(k))) for k in DATA}
-            for k in ("idx", "order"):
-                e = s.find(c(k))
-                one[k] = None if e is None else e.get("val")
-            sers.append(one)
-        out["plots"].append({"tag": local(pl), "sers": sers})
-    return out
 
 
 # ------------------------------------------------------------------ oracle
@@ -575,7 +485,10 @@ def check_untouched(j, before_blob, after_root, new_n):
         for p in plot_elements(a):
             if p.find(c("ser")) is None:
                 p.getparent().remove(p)
-    elif len(new) > len(old) and old:
+    if not old:  # nothing survives, nothing to clone from: whatever series were added are outside this clause
+        for s in new:
+            s.getparent().remove(s)
+    elif len(new) > len(old):
         def bare(s):
             s = copy.deepcopy(s)
             for k in ("idx", "order"):
@@ -605,6 +518,8 @@ def guarded(j, fn, desc, entry, nser_before=None):
         name = type(e).__name__
         if isinstance(e, ValueError) and str(e) in ("chart data contains no categories", "category depth not uniform"):
             j.acc.count("rejected_calls_documented_ValueError")
+        elif isinstance(e, ValueError) and entry == "replace_data" and (nser_before == 0 or not desc["series"]):
+            j.acc.count("rejected_calls_ValueError_for_zero_series")  # not what the pinned tree does; a tree that refuses zero series is not in violation
         elif name == "XMLSyntaxError" and is_nf_meta(desc):
             j.bad("number-format-unescaped:%s" % entry, "number format %r / %r is substituted unescaped into the XML template: %s" % (desc["nf"], (desc.get("cats") or {}).get("nf"), e))
         elif entry == "replace_data" and nser_before == 0:
